@@ -64,7 +64,7 @@ def with_rate_bodies(ctx, f):
     from . import ckit as K
     ps = return_paths(ctx.paths(f))
     b = {}
-    if len(ps) == 1 and match(ps[0].ret, Agg("Result::Ok", Call("Iterator::collect", Call("Iterator::map", Call("IntoIterator::into_iter", Param(2), nargs=1), Bind("clo"), nargs=2), nargs=1)), b) \
+    if len(ps) == 1 and match(ps[0].ret, Agg("Result::Ok", Call(("Iterator::collect", "FromIterator::from_iter"), Call("Iterator::map", Call("IntoIterator::into_iter", Param(2), nargs=1), Bind("clo"), nargs=2), nargs=1)), b) \
             and len(ps[0].calls()) == 3:
         cps = [q for q in closure_paths(ctx, b["clo"]) if q.end != "unreachable"]
         return [(q, list(q.conds), q.ret, (lambda e: e[:2] == ("cparam", 2))) for q in cps]
@@ -332,10 +332,11 @@ def umad_semantics(ctx):
             nfl += 1
             src = K.strip(src[3][0], calls=())
         s0, er = size0(p), ear(p)
-        if callee_is(src, "Iterator::flat_map") and len(src[3]) == 2 and match(src[3][0], Through(Call("IntoIterator::into_iter", Param(2), nargs=1))) and \
-                src[3][1][0] == "agg" and src[3][1][1] == "closure":
+        clo_ = K.strip(src[3][1], calls=()) if (callee_is(src, "Iterator::flat_map") and len(src[3]) == 2) else None      # a closure may reach the adaptor through a no-op cast
+        if clo_ is not None and match(src[3][0], Through(Call("IntoIterator::into_iter", Param(2), nargs=1))) and \
+                clo_[0] == "agg" and clo_[1] == "closure":
             V["n_main"] += 1
-            clos.append((src[3][1], nfl))
+            clos.append((clo_, nfl))
             # taken unless (size == 0 and the empty rate is configured)
             if not ((s0 and s0[0] is False) or (er and er[0] != 1)):
                 V["shape"] = False
